@@ -685,6 +685,21 @@ func (t *T) cleanup() {
 	}
 }
 
+// cleanupAfterFailure runs the cleanup tasks of a T whose function has already failed:
+// skipping (invalid data) from a Cleanup function can not undo that failure,
+// while a Cleanup function that fails itself still replaces it.
+func (t *T) cleanupAfterFailure() {
+	defer func() {
+		if r := recover(); r != nil {
+			if _, ok := r.(invalidData); !ok {
+				panic(r)
+			}
+		}
+	}()
+
+	t.cleanup()
+}
+
 func (t *T) Logf(format string, args ...any) {
 	if t.rawLog != nil {
 		t.rawLog.Printf(format, args...)
